@@ -73,8 +73,22 @@ class C16(Spec):
                 cases.append("T %s %s" % (pv.hexs(name), pv.hexs(v)))
         # lookups
         names = ["Host", "User-Agent", "X-Foo", "x-bar", "Content-Type", "Accept", "A", "Cache-Control", "Set-Cookie2", "X-Forwarded-For"]
+        # every letter of the alphabet occurs in some name (a case fold that misses one letter must show)
+        names += ["Authorization", "X-Quiz-Jazz", "Z", "zz", "Vwxyz-Klmnopq", "Jkq-Bdfgh", "AbCdEfGhIjKlMnOpQrStUvWxYz"]
         def rc(s):
             return "".join(c.upper() if rng.random() < 0.5 else c.lower() for c in s)
+        def val_for(nm):
+            return {"content-type": b"text/html", "accept": b"*/*", "cache-control": b"no-cache", "host": b"h",
+                    "authorization": b"Basic QQ=="}.get(nm.lower(), b"v1")
+        for nm in names:
+            forms = [nm, nm.lower(), nm.upper(), nm.swapcase(), nm.capitalize()]
+            for sent in forms:
+                msg = b"GET / HTTP/1.1\r\n" + sent.encode() + b": " + val_for(nm) + b"\r\n\r\n"
+                cases.append("L %s %s" % (pv.hexs(msg), " ".join(pv.hexs(x) for x in forms)))
+            # first occurrence wins under any capitalisation (unknown names only: typed headers are single-valued)
+            if nm.lower() not in ("content-type", "accept", "cache-control", "host", "authorization", "user-agent"):
+                msg = (b"GET / HTTP/1.1\r\n" + nm.lower().encode() + b": one\r\n" + nm.upper().encode() + b": two\r\n\r\n")
+                cases.append("L %s %s" % (pv.hexs(msg), " ".join(pv.hexs(x) for x in forms)))
         for _ in range(400 if tier == "quick" else 8000):
             hs = []
             for _k in range(rng.randint(1, 6)):
@@ -88,6 +102,8 @@ class C16(Spec):
                     val = b"no-cache"
                 if nm.lower() == "host":
                     val = b"h"
+                if nm.lower() == "authorization":
+                    val = b"Basic QQ=="
                 hs.append((nm, val))
             msg = b"GET / HTTP/1.1\r\n" + b"".join(k.encode() + b": " + v + b"\r\n" for k, v in hs) + b"\r\n"
             looks = [rc(rng.choice(names)) for _ in range(4)] + [rc(hs[0][0])]
